@@ -67,6 +67,11 @@ prop('C12', engine='storesim', profiles={'quick': [('c12', 1600)], 'thorough': [
           'multi-level/module-derived; namespaces; every data class; JSON-like/placeholder/parameter-object values; parameter and name mode), then processes '
           'running the current tree with another hash seed must report has_data, load equal values with zero runs, use the documented layout and find run info/log '
           'beside the result; non-trivial = at least one result stored by the old tree was loaded by the current one')
+prop('C20', engine='storesim', profiles={'quick': [('c20', 1600)], 'thorough': [('c20', 40000)]}, level='exploration',
+     nontrivial=lambda r: r['stats'].get('loads', 0) > 0,
+     rule='file-rendered roots: a name-mode chain computes an arbitrary subset (all data kinds incl. directory types), then dry / real / repeated migrations '
+          'in fresh simulated processes, then a parameter-mode chain on the target: has_data exactly for what had data, equal values, zero runs; listings (files + '
+          'sha256) of source and target compared between steps; non-trivial = at least one migrated result was loaded through the parameter-mode chain')
 prop('C13', engine='storesim', profiles={'quick': [('c13', 2400)], 'thorough': [('c13', 60000)]}, level='exploration',
      nontrivial=lambda r: r['stats'].get('mem_shared_multichain', 0) > 0 or r['stats'].get('forced_runs', 0) > 0,
      rule='MultiChains over 2-4 generated roots (overlapping pipelines, differing parameters/contexts/namespaces), requests and MultiChain.force '
@@ -123,7 +128,8 @@ def get_engine(name):
 
 
 def signature(discs, pid):
-    return sorted({(d['prop'], d['inv']) for d in discs if d['prop'] == pid})
+    kz = {k['zone'] for k in core.load_known_findings() if k.get('property') == pid and k.get('status') == 'open'}
+    return sorted({(d['prop'], d['inv']) for d in discs if d['prop'] == pid and d.get('zone') not in kz})
 
 
 def run_one(engine, scn, ctx):
@@ -143,7 +149,11 @@ def replay(pid, path):
         obs, discs = run_one(engine, scn, ctx)
     finally:
         engine.teardown_worker(ctx)
-    mine = [d for d in discs if d['prop'] == pid]
+    known_zones = {k['zone'] for k in core.load_known_findings() if k.get('property') == pid and k.get('status') == 'open'}
+    for d in discs:
+        if d['prop'] == pid and d.get('zone') in known_zones:
+            print(f'KNOWN-FINDING: property={pid} zone={d["zone"]}: {d["msg"]}')
+    mine = [d for d in discs if d['prop'] == pid and d.get('zone') not in known_zones]
     exp = data.get('expected_signature')
     for d in mine[:5]:
         print(f'  {d["prop"]} {d["inv"]} op={d["op"]}: {d["msg"]} {json.dumps(d.get("detail"), default=str)[:400]}')
@@ -202,10 +212,12 @@ def generic_runner(pid, tier, seed, a, cfg):
     plan = cfg['profiles'][tier]
     if a.profile:
         plan = [(p, n) for p, n in plan if p == a.profile] or [(a.profile, 100)]
+    known = [k for k in core.load_known_findings() if k.get('property') == pid and k.get('status') == 'open']
+    known_zones = {k['zone'] for k in known}
     for profile, n in plan:
         n = a.n or n
         recs, hung = core.run_batch(engine, profile, pid, seed, n, workers=a.workers, wall=a.wall or (600 if tier == 'quick' else 5400),
-                                    opts={'sample': 3})
+                                    opts={'sample': 3, 'known_zones': sorted(known_zones)})
         hung_any |= hung
         for r in recs:
             r['profile'] = profile
@@ -214,47 +226,58 @@ def generic_runner(pid, tier, seed, a, cfg):
     ran = [r for r in all_recs if 'digest' in r]
     harness = [r for r in all_recs if 'harness_error' in r]
     skipped = [r for r in all_recs if 'skipped' in r]
-    mine = [r for r in ran if any(d['prop'] == pid for d in r['discs'])]
+
+    def fresh_discs(r):
+        return [d for d in r['discs'] if d['prop'] == pid and d.get('zone') not in known_zones]
+
+    mine = [r for r in ran if fresh_discs(r)]
+    known_hits = {}
+    for r in ran:
+        for d in r['discs']:
+            if d['prop'] == pid and d.get('zone') in known_zones:
+                e = known_hits.setdefault(d['zone'], {'count': 0, 'example': None})
+                e['count'] += 1
+                if e['example'] is None and r.get('saved'):
+                    e['example'] = r['saved']
     aborted = {}
     for r in ran:
         for d in r['discs']:
             if d['prop'] != pid:
                 aborted[d['prop']] = aborted.get(d['prop'], 0) + 1
-    # ---- violations: shrink + known-finding triage
+    # ---- violations: shrink; known findings are matched by the zone the oracle attaches to each discrepancy
     violations = []
     known_lines = []
-    known = [k for k in core.load_known_findings() if k.get('property') == pid and k.get('status') == 'open']
+    for k in known:
+        h = known_hits.get(k['zone'])
+        if h:
+            known_lines.append(f'KNOWN-FINDING: property={pid} {k["id"]}: {k["what"]} [{h["count"]} occurrences in this run; example scenario {h["example"]}]')
     ctx = None
     try:
         for r in mine[:6]:
             data = json.loads(Path(r['saved']).read_text())
             scn = data['scenario']
-            sig = signature(data['discs'], pid)
+            sig = sorted({(d['prop'], d['inv']) for d in data['discs'] if d['prop'] == pid and d.get('zone') not in known_zones})
             final = scn
             steps = 0
-            if not a.no_shrink:
-                if ctx is None:
-                    ctx = engine.setup_worker()
-
-                def same(c, _sig=sig):
-                    obs, discs = run_one(engine, c, ctx)
-                    return signature(discs, pid) == _sig
-                final, steps = core.shrink(engine, scn, same, ctx, budget_s=45 if tier == 'quick' else 120)
             if ctx is None:
                 ctx = engine.setup_worker()
+
+            def cur_sig(discs):
+                return sorted({(d['prop'], d['inv']) for d in discs if d['prop'] == pid and d.get('zone') not in known_zones})
+            if not a.no_shrink:
+                def same(c, _sig=sig):
+                    obs, discs = run_one(engine, c, ctx)
+                    return cur_sig(discs) == _sig
+                final, steps = core.shrink(engine, scn, same, ctx, budget_s=45 if tier == 'quick' else 120)
             obs, discs = run_one(engine, final, ctx)
-            zs = zone_of(pid, final, discs)
-            hit = next((k for k in known if k['zone'] in zs), None)
             rp = core.OUT / 'replay' / pid
             rp.mkdir(parents=True, exist_ok=True)
             fp = rp / f'{r["profile"]}-{seed}-{r["idx"]}.json'
-            fp.write_text(core.jdump({'property': pid, 'scenario': final, 'expected_signature': signature(discs, pid),
-                                      'discs': [d for d in discs if d['prop'] == pid][:10], 'seed': seed, 'index': r['idx'],
+            keep = [d for d in discs if d['prop'] == pid and d.get('zone') not in known_zones]
+            fp.write_text(core.jdump({'property': pid, 'scenario': final, 'expected_signature': cur_sig(discs),
+                                      'discs': keep[:10], 'seed': seed, 'index': r['idx'],
                                       'shrink_steps': steps, 'original_ops': engine.size(scn), 'ops': engine.size(final)}))
-            if hit is not None:
-                known_lines.append(f'KNOWN-FINDING: property={pid} {hit["id"]}: {hit["what"]} (replay={fp})')
-            else:
-                violations.append((fp, [d for d in discs if d['prop'] == pid][:3]))
+            violations.append((fp, keep[:3]))
     finally:
         if ctx is not None:
             engine.teardown_worker(ctx)
